@@ -5,9 +5,10 @@
                  else needs a Paren node, which the parser records explicitly -, names in the lexical
                  class of their position and no keywords, literals within +-(2^63-1)).
    [Tk_*]        the token stream of the printed tree, written directly (no documents, no glue) in
-                 continuation style: Tk_term t k = tokens of t followed by k.
-   [zsafe_*]     the guard that excludes the defect class: no `if` with a literal 0 adjacent to the
-                 comparison operator. *)
+                 continuation style: Tk_term t k = tokens of t followed by k.  An `if` whose first
+                 operand ends with the literal 0 is printed zero-left (`0 cmp' t`, zero form) or with
+                 a comment in front of the operator (no token); a second operand that starts with
+                 the literal 0 gets a minus sign. *)
 From Coq Require Import List ZArith NArith String Ascii Bool Lia.
 From SCC Require Import Base.Sexp Lang.SynUtil Lang.FunSyn Model.Printer Model.Parser Model.FmtClass.
 Import ListNotations.
@@ -142,10 +143,12 @@ Fixpoint Tk_term (t : fterm) (k : list token) : list token :=
   | FOp a o b => Tk_term a (TSym (sym_of_binop o) :: Tk_term b k)
   | FIfC s a b th el _ =>
       let branches := TSym SLBrace :: Tk_term th (TSym SRBrace :: TKw KElse :: TSym SLBrace :: Tk_term el (TSym SRBrace :: k)) in
-      TKw KIf :: Tk_term a (match b with
-                            | Some b' => TSym (SCmp s) :: Tk_term b' branches
-                            | None => TCmpZ s :: branches
-                            end)
+      TKw KIf :: match b with
+                 | Some b' => Tk_term a (TSym (SCmp s) :: if starts_zero b' then TSym SMinus :: Tk_term b' branches
+                                                          else Tk_term b' branches)
+                 | None => if ends_zero a then TZCmp (flip s) :: Tk_term a branches
+                           else Tk_term a (TCmpZ s :: branches)
+                 end
   | FPrint nl a next _ =>
       TKw (if nl then KPrintln else KPrint) :: TSym SLPar :: Tk_term a (TSym SRPar :: TSym SSemi :: Tk_term next k)
   | FLet v ty b t _ =>
